@@ -102,6 +102,22 @@ def keyword_matrix(keywords=None, case_variants=None):
     return out
 
 
+WEIRD_NAMES = ["été", "漢字", "a.b", "a-b", "_lead", "x.1", "naïve-Name", "ΑΒΓ", "a·b", "İx", "x__y", "A1B2", "e\u0301", "ǅ", "ß",
+               "a.b.c-d_e", "ºrd", "Ünï_cödé"]
+
+
+def weird_name_matrix():
+    """Legal NCNames that are awkward for case conversion (non-ASCII letters, dots, dashes, digits, combining marks) in every
+    naming position. The expected Rust spelling is not predicted: the claim is "parses, compiles, component still there"."""
+    out = []
+    for nm in WEIRD_NAMES:
+        for pos in POSITIONS:
+            ss = base_program(names={pos: Name((nm.lower(),), "snake", nm)})
+            ss.features = {f"weird-name:{nm}", f"position:{pos}"}
+            out.append((nm, pos, ss))
+    return out
+
+
 def payload_matrix():
     out = []
     for cls, payload in PAYLOADS.items():
